@@ -46,17 +46,17 @@ type Msg struct {
 	Pipe    *Pipeline
 	fut     *appendFut
 
-	state     msgState
-	SentAt    int64 // virtual ms
-	SentSeq   int
+	state       msgState
+	SentAt      int64 // virtual ms
+	SentSeq     int
 	ProducedSeq int
-	Decided   bool
-	ReadyAt   int64 // not deliverable before (request or response, whichever is pending)
-	HandledBy *Instance
-	done      chan struct{}
-	abandoned bool
-	respOut   any // caller's response struct
-	Dup       bool
+	Decided     bool
+	ReadyAt     int64 // not deliverable before (request or response, whichever is pending)
+	HandledBy   *Instance
+	done        chan struct{}
+	abandoned   bool
+	respOut     any // caller's response struct
+	Dup         bool
 }
 
 func (m *Msg) String() string {
@@ -67,11 +67,11 @@ func (m *Msg) String() string {
 type Verdict int
 
 const (
-	VDeliver Verdict = iota
-	VHold            // keep pending (policy sets ReadyAt)
-	VDrop            // lose it (the caller times out)
-	VRefuse          // fail fast (connection refused)
-	VDuplicate       // deliver now and deliver a copy again (requests only)
+	VDeliver   Verdict = iota
+	VHold              // keep pending (policy sets ReadyAt)
+	VDrop              // lose it (the caller times out)
+	VRefuse            // fail fast (connection refused)
+	VDuplicate         // deliver now and deliver a copy again (requests only)
 )
 
 type Net struct {
@@ -85,9 +85,9 @@ type Net struct {
 	Policy func(m *Msg, resp bool) Verdict
 	// Scripted: server ids whose requests are not delivered by Step but left
 	// for the harness (solo engine: model peers).
-	Scripted map[string]bool
+	Scripted  map[string]bool
 	Delivered int
-	pipes    []*Pipeline
+	pipes     []*Pipeline
 }
 
 func newNet(w *World) *Net {
@@ -194,7 +194,7 @@ type noPreVoteTransport struct{ *Transport }
 // hide RequestPreVote
 func (t *noPreVoteTransport) RequestPreVote() {}
 
-func (t *Transport) Consumer() <-chan raft.RPC    { return t.consumer }
+func (t *Transport) Consumer() <-chan raft.RPC     { return t.consumer }
 func (t *Transport) LocalAddr() raft.ServerAddress { return t.in.Srv.Addr }
 func (t *Transport) EncodePeer(id raft.ServerID, addr raft.ServerAddress) []byte {
 	return []byte(addr)
